@@ -82,7 +82,14 @@ impl Property for Prop {
                         // explicit re-use label passed by the caller in the middle of a run
                         h.push(Op::Enc { label: 5, outcome: Outcome::Fits, ext: rng.chance(1, 8) });
                     } else if rng.chance(2, 3) {
-                        h.push(Op::Enc { label: sticky, outcome: if rng.chance(1, 12) { Outcome::TooSmall } else { Outcome::Fits }, ext: rng.chance(1, 8) });
+                        let outcome = match rng.below(24) {
+                            0 => Outcome::TooSmall,
+                            1 => Outcome::TooLong,
+                            2 => Outcome::BadPtype,
+                            3 => Outcome::HeaderOnly,
+                            _ => Outcome::Fits,
+                        };
+                        h.push(Op::Enc { label: sticky, outcome, ext: rng.chance(1, 5) });
                     } else {
                         let mut op = random_op(&mut rng, false);
                         if let Op::EnableMax(_) = op {
